@@ -283,6 +283,9 @@ Full(n) ==
       [] n = "time"     -> {x \in VarintFull : x >= 0} \cup {999, 1000, 1000000, 1000000000}
       [] n = "varint"   -> VarintFull
       [] n = "decimal"  -> {<<s, u>> : s \in {0, 2, -3, 127, 128, 38}, u \in {0, 1, -1, 127, 128, -128, -129, 32768, -8388609, MaxI, MinInt}}
+                            \* the [int] scale at its own boundaries (the value is unscaled * 10^-scale: scale -2^31 means
+                            \* the exponent +2^31, which the harness computes exactly - the specification never negates it)
+                            \cup {<<s, u>> : s \in {MinInt, MinInt + 1, -1, 1, MaxI}, u \in {1, -129}}
       [] n = "date"     -> {0, 1, -1, 127, 128, -128, -129, 19000, -719162, 2932896, 2932897, -719163, MaxI, MinInt, MaxI - 1, MinInt + 1}
       [] n = "duration" -> DurationFull
       [] n = "text"     -> {Txt.empty, Txt.a, Txt.ab, Txt.two, Txt.three, Txt.four, Txt.nul, Txt.mix}
@@ -391,17 +394,20 @@ Admissible(t, v, pv) == pv >= 3 \/ (IsScalar(t) \/ (Kind(t) # "vector" /\ ~HasNu
 \* ------------------------------------------------------------------ out-of-range values
 \* x = sign * (2^base + off): outside TLC's integers, carried symbolically; a w-bit two's complement field holds
 \* -2^(w-1) .. 2^(w-1)-1 (date: days + 2^31 must fit an unsigned 32-bit field, the same interval)
-RangeBits(n) == CASE n = "tinyint" -> 8 [] n = "smallint" -> 16 [] n \in {"int", "date"} -> 32 [] n \in {"bigint", "counter"} -> 64
-RangeTypes == {"tinyint", "smallint", "int", "date", "bigint", "counter"}
+\* decimal: the SCALE is an [int]; a scale outside 32 bits (Python: an exponent in -2^31 .. and beyond +2^31) must be refused
+RangeBits(n) == CASE n = "tinyint" -> 8 [] n = "smallint" -> 16 [] n \in {"int", "date", "decimal"} -> 32 [] n \in {"bigint", "counter"} -> 64
+RangeTypes == {"tinyint", "smallint", "int", "date", "bigint", "counter", "decimal"}
+RVal(n, x) == IF n = "decimal" THEN <<x, 1>> ELSE x          \* the probe as a value of the type (decimal: <<scale, unscaled>>)
 InRange(w, x) == IF x.sign = 1 THEN x.base < w - 1 ELSE x.base < w - 1 \/ (x.base = w - 1 /\ x.off = 0)
 Probes(w) == {x \in [sign : {1, -1}, base : {w - 2, w - 1, w, w + 8}, off : {0, 1}] : ~InRange(w, x)}
 Wrappers == {"top", "list", "tuple", "mapval", "set", "udt"}
-Wrap(w, n, x) == CASE w = "top"    -> <<Sc(n), x>>
+WrapV(w, n, x) == CASE w = "top"    -> <<Sc(n), x>>
                    [] w = "list"   -> <<ListOf(Sc(n)), <<Some(x)>>>>
                    [] w = "set"    -> <<SetOf(Sc(n)), <<Some(x)>>>>
                    [] w = "tuple"  -> <<TupleOf(<<TText, Sc(n)>>), <<None, Some(x)>>>>
                    [] w = "udt"    -> <<UdtOf(<<Sc(n), TText>>), <<Some(x), None>>>>
                    [] w = "mapval" -> <<MapOf(TInt, Sc(n)), <<<<Some(1), Some(x)>>>>>>
+Wrap(w, n, x) == WrapV(w, n, RVal(n, x))
 
 \* ------------------------------------------------------------------ timestamps given as wall clock + UTC offset
 \* A timestamp is the number of milliseconds since 1970-01-01T00:00Z of an INSTANT (TimestampSerializer: a long).  A
@@ -502,7 +508,7 @@ Case == /\ expect = "seed" /\ ty \notin {RangeSeed, TzSeed, WideSeed}
 RangeCase == /\ expect = "seed" /\ ty = RangeSeed
              /\ \E p \in PVs, n \in RangeTypes, w \in Wrappers :
                   \E x \in Probes(RangeBits(n)) :
-                    /\ ~(w = "set" /\ n = "counter")
+                    /\ ~(w = "set" /\ n = "counter") /\ ~(n = "decimal" /\ w \notin {"top", "list"})
                     /\ pv' = p
                     /\ ty' = Wrap(w, n, x)[1] /\ val' = Wrap(w, n, x)[2]
                     /\ enc' = <<>> /\ img' = {} /\ norm' = <<>>
